@@ -359,12 +359,91 @@ func (w *W) c05(groups [][]*driver.Bound) {
 // proportion": a generous constant (up-front buffers, bounded pre-allocation) plus 64 bytes per input byte.
 func allocBudget(n int) uint64 { return uint64(1<<20 + 64*n) }
 
+// A stream decoder may pre-allocate a bounded NUMBER of elements (4096) before any of them has arrived: a constant of the
+// schema, independent of the announced count. For records with wide elements that constant exceeds the 1 MiB base, so the
+// budget of a case is raised by 4096 x (twice the in-memory size of its widest container element).
+var preallocAllowance = map[*schema.Record]uint64{}
+
+func goSize(t *schema.Type, depth int) uint64 {
+	if depth > 6 {
+		return 8
+	}
+	switch t.Kind {
+	case schema.Prim:
+		switch t.Name {
+		case "string", "guid":
+			return 16
+		case "date":
+			return 24
+		}
+		return uint64(schema.FixedSize[t.Name])
+	case schema.EnumT:
+		return 8
+	case schema.ArrayT:
+		return 24
+	case schema.MapT:
+		return 8
+	case schema.RecT:
+		if t.Rec.Kind != schema.Struct {
+			return 8 * uint64(len(t.Rec.Fields)+len(t.Rec.Branches)+1)
+		}
+		var sum uint64
+		for _, f := range t.Rec.Fields {
+			sum += goSize(f.Type, depth+1)
+		}
+		return sum
+	}
+	return 8
+}
+
+func widestElem(r *schema.Record, depth int) uint64 {
+	if depth > 6 {
+		return 0
+	}
+	var best uint64
+	var walk func(t *schema.Type)
+	walk = func(t *schema.Type) {
+		switch t.Kind {
+		case schema.ArrayT, schema.MapT:
+			if sz := goSize(t.Elem, 0) + 16; sz > best {
+				best = sz
+			}
+			walk(t.Elem)
+		case schema.RecT:
+			if w := widestElem(t.Rec, depth+1); w > best {
+				best = w
+			}
+		}
+	}
+	for _, f := range r.Fields {
+		walk(f.Type)
+	}
+	for _, b := range r.Branches {
+		if w := widestElem(b.Rec, depth+1); w > best {
+			best = w
+		}
+	}
+	return best
+}
+
+// budgetFor is the allocation budget of one case for n input bytes.
+func budgetFor(b *driver.Bound, n int) uint64 {
+	extra, ok := preallocAllowance[b.Case.Rec]
+	if !ok {
+		if w := widestElem(b.Case.Rec, 0); w > 128 {
+			extra = 4096 * 2 * w
+		}
+		preallocAllowance[b.Case.Rec] = extra
+	}
+	return allocBudget(n) + extra
+}
+
 // zeroSizeElems reports whether the shape contains an array or map whose elements occupy no bytes on the
 // wire (empty structs): 2^32 of them are a valid 4-byte encoding, so decoding time is legitimately
 // unbounded by input size there and corrupted counts say nothing about the implementation.
 func zeroSizeElems(t *schema.Type) bool {
 	for t != nil {
-		if (t.Kind == schema.ArrayT || t.Kind == schema.MapT) && t.Elem.Kind == schema.RecT && t.Elem.Rec.Kind == schema.Struct && len(t.Elem.Rec.Fields) == 0 {
+		if t.Kind == schema.ArrayT && t.Elem.Kind == schema.RecT && t.Elem.Rec.Kind == schema.Struct && len(t.Elem.Rec.Fields) == 0 {
 			return true
 		}
 		t = t.Elem
@@ -390,10 +469,17 @@ func (w *W) c06(groups [][]*driver.Bound) {
 					huge[hv] = true
 				}
 			}
-			if sh := b.Case.Shape; b.Opt == 0 && sh != nil && sh.Kind == schema.ArrayT && sh.Elem.Kind != schema.ArrayT && sh.Elem.Kind != schema.MapT &&
+			if sh := b.Case.Shape; b.Opt == 0 && sh != nil && (sh.Kind == schema.ArrayT || (sh.Kind == schema.MapT && sh.Key == "uint32")) && sh.Elem.Kind != schema.ArrayT && sh.Elem.Kind != schema.MapT &&
 				!zeroSizeElems(sh) && (b.Case.Ctx == "S" || b.Case.Ctx == "M" || b.Case.Ctx == "IMP") && (b.Case.Rec.Kind == schema.Struct || b.Case.Rec.Kind == schema.Message) {
-				// an array of 400 000 elements (far above the allocation budget once a decoder trusts the count), cut near the header
+				// an array (or uint32-keyed map) of 400 000 elements (far above the allocation budget once a decoder trusts the count), cut near the header
 				if hv := refcodec.HugeArrayValue(b.Case.Rec, "f", 400000); hv != nil {
+					vals = append(vals, hv)
+					huge[hv] = true
+				}
+			}
+			if b.Opt == 0 && strings.HasPrefix(b.Case.ID, "CXWide") {
+				// 20 000 elements of 256 / 512 bytes (5-10 MB on the wire, as much again in memory once the count is trusted)
+				if hv := refcodec.HugeArrayValue(b.Case.Rec, "f", 20000); hv != nil {
 					vals = append(vals, hv)
 					huge[hv] = true
 				}
@@ -518,10 +604,10 @@ func (w *W) judgeTruncated(prop, dec string, b *driver.Bound, o driver.Outcome, 
 		w.report(fmt.Sprintf("%s|%s|no-error|%s|cut-in-%s|%s", prop, dec, b.Case.Rec.Kind, role, b.Case.Class),
 			fmt.Sprintf("%s of a strict %d-byte prefix returned nil", dec, k), ci(dec))
 	}
-	if o.Alloc > allocBudget(k) {
-		if precise := driver.PreciseAlloc(redo); precise > allocBudget(k) {
+	if o.Alloc > budgetFor(b, k) {
+		if precise := driver.PreciseAlloc(redo); precise > budgetFor(b, k) {
 			w.report(fmt.Sprintf("%s|%s|alloc|%s|cut-in-%s|%s", prop, dec, b.Case.Rec.Kind, role, b.Case.Class),
-				fmt.Sprintf("%s of a %d-byte prefix allocated %d bytes (budget 1MiB+64×len = %d)", dec, k, precise, allocBudget(k)), ci(dec))
+				fmt.Sprintf("%s of a %d-byte prefix allocated %d bytes (budget %d)", dec, k, precise, budgetFor(b, k)), ci(dec))
 		}
 	}
 }
@@ -570,7 +656,7 @@ func (w *W) judgeArbitrary(b *driver.Bound, in []byte, origin string, ci func() 
 			w.report(fmt.Sprintf("C07|%s|panic:%s@%s|%s|%s", dec, o.PanicKind, o.Site, origin, b.Case.Class),
 				fmt.Sprintf("%s(%s) panicked: %s", dec, vlib.Hex(in), outcomeStr(o)), m)
 		}
-		if o.Alloc > allocBudget(len(in)) {
+		if o.Alloc > budgetFor(b, len(in)) {
 			di := di
 			precise := driver.PreciseAlloc(func() {
 				if di == 0 {
@@ -580,7 +666,7 @@ func (w *W) judgeArbitrary(b *driver.Bound, in []byte, origin string, ci func() 
 					b.New().DecodeBebop(driver.NewChunkReader(in))
 				}
 			})
-			if precise > allocBudget(len(in)) {
+			if precise > budgetFor(b, len(in)) {
 				m := ci()
 				m["decoder"] = dec
 				m["input"] = vlib.Hex(in)
@@ -986,11 +1072,11 @@ func (w *W) c08(groups [][]*driver.Bound) {
 									w.report(fmt.Sprintf("C08|decode|error-swallowed|%s|%s", b.Case.Rec.Kind, b.Case.Class),
 										fmt.Sprintf("the reader failed at byte %d of %d but DecodeBebop returned nil", k, len(want)), ci())
 								}
-								if o.Alloc > allocBudget(len(want)) && driver.PreciseAlloc(func() {
+								if o.Alloc > budgetFor(b, len(want)) && driver.PreciseAlloc(func() {
 									cr2 := driver.NewChunkReader(want)
 									cr2.FailAt, cr2.FailErr, cr2.FailStyle, cr2.Choose, cr2.Transient = k, e, style, cr.Choose, ei == 3
 									b.New().DecodeBebop(cr2)
-								}) > allocBudget(len(want)) {
+								}) > budgetFor(b, len(want)) {
 									w.report(fmt.Sprintf("C08|decode|alloc|%s", b.Case.Class), fmt.Sprintf("DecodeBebop allocated %d bytes for a %d-byte stream failing at byte %d", o.Alloc, len(want), k), ci())
 								}
 							}
